@@ -592,7 +592,10 @@ def run_args(sig, kind, hist):
         elif step['op'] == 'replay':
             got = (call_and_mutate if own or step['obj'] == 0 else outcome)(P.call_with_callargs, objs[step['obj']], mine[step['i'] - 1])
         else:
-            apply_edit(mine[step['i'] - 1], step['e'])
+            try:
+                apply_edit(mine[step['i'] - 1], step['e'])
+            except (KeyError, TypeError, AttributeError):     # not the binding getcallargs should have returned: the shorter
+                return None                                   # history that ends with that getcallargs reports it
     return got, [tagx(d) for d in mine]
 
 
@@ -843,7 +846,10 @@ def observe_args(rng, nmax):
             events.append({'op': 'get', 'obj': o, 'cc': cc, 'i': 0, 'e': '', 'out': out})
         elif edits and r < 0.5:
             i, e = rng.randrange(len(mine)), rng.choice(edits)
-            apply_edit(mine[i], e)
+            try:
+                apply_edit(mine[i], e)
+            except (KeyError, TypeError, AttributeError):     # not a binding of this signature: the get event before is rejected
+                break
             events.append({'op': 'edit', 'obj': 0, 'cc': empty, 'i': i + 1, 'e': e, 'out': NONE})
         else:
             o, i = rng.randint(0, 1), rng.randrange(len(mine))
